@@ -25,6 +25,10 @@ CHECKS["C17"] = dict(level="model_checking", design="3/C17",
    technique="TLC exhaustive model checking of GuardedAlloc.tla (scaled page) + trace validation (TLC) of real malloc/mprotect/probe/free executions with the real page size",
    text="TLC explores every allocation size 0..3 pages+1 (page 32, canary 16), every sequence of up to 4 protection changes and probes and free, and checks the layout invariants for all sizes (user end = guard page start, canary adjacent and inside the first data page so that free/mprotect recover the data pages, rounding), that an access past the end faults under every protection, that protections apply to the whole user region, and that free terminates the process exactly when a canary byte was altered. The real library is then driven through scripted scenarios (all sizes around every page boundary up to 3 pages, every protection sequence up to length 2 (4 thorough), real read/write probes caught by a SIGSEGV handler, canary tampering, free in a forked child, oversize and overflowing requests) and every recorded event - layout read from /proc/self/maps, fill byte, probe outcome, termination - is validated against the same specification instantiated with page size 4096.",
    note="Trusted: TLC, /proc/self/maps as the observation of protections, fork/wait as observation of termination. mlock/madvise are not observed. x86-64 Linux only.")
+CHECKS["C20"] = dict(level="fault_enumeration", design="3/C20",
+   technique="exhaustive single/suffix fault injection at every allocation request (link-time interposition) validated by TLC against the AllocFault.tla monitor; TLC model check of the allocation-protocol design",
+   text="For each of 18 API calls (Argon2i/id raw, string, verify with right and wrong password, needs_rehash; scrypt raw, string, verify, low-level; sodium_malloc, sodium_allocarray) and each build variant that changes the allocator branch (mmap, posix_memalign, malloc+63), the call's n allocation requests are counted and the call is re-run in a forked child with request i failing and with every request from i on failing, for every i; the recorded events (requests, releases, return value, whether the right hash/string/match/pointer was produced, crash) are validated by TLC against the monitor: no double or foreign free, and if any request failed then error return, nothing produced, nothing leaked. TLC also explores every failure subset of the design model of the protocols. Enumeration is complete for the listed calls and parameter sets (exhaustive: true); it is not a statement about other parameter sets.",
+   note="Trusted: the linker interposition sees every request the library makes (libc-internal requests would not be seen; none exist on these paths); fork/wait as crash observation. mprotect/mlock failures are not injected.")
 NOT_YET = {}
 def main():
     props = [json.loads(l) for l in open(os.path.join(HERE, "properties.jsonl"))]
